@@ -86,10 +86,10 @@ Print Assumptions pq_at_least_once_when_drained.
    than one drain incarnation is needed because a request whose re-put at start-up is refused by
    the capacity check stays listed under "di" and is moved back by a LATER start (at least one
    per start once the queue is empty): k >= |di| + 2.  [fits c]: every request fits into the empty
-   queue (otherwise it is never accepted in the first place).  [blockOnOverflow c = false] is NECESSARY: see
-   pq_at_least_once_blocking_refuted below. *)
+   queue (otherwise it is never accepted in the first place).  Holds for every configuration, block_on_overflow
+   included (since the repair 7592c5c1e recovery never waits for space: pq_recovery_never_parks). *)
 Theorem pq_at_least_once : forall c h n k,
-  blockOnOverflow c = false -> fits c ->
+  fits c ->
   (pending (fst (run_history c store0 h)) <= n)%nat ->
   (length (di_of (fst (run_history c store0 h))) + 2 <= k)%nat ->
   forall r, In r (accepted (snd (run_history c store0 (h ++ drains n k)))) ->
@@ -100,7 +100,7 @@ Print Assumptions pq_at_least_once.
 (* one clean drain incarnation empties the range [ri, wi) and never lengthens "di"; started on an
    empty range it leaves nothing durable or strictly shortens "di" (progress of the retry) *)
 Theorem pq_drain_progress : forall c h n,
-  blockOnOverflow c = false -> fits c ->
+  fits c ->
   let st := fst (run_history c store0 h) in
   (pending st <= n)%nat ->
   let st' := i_store (incarnation c st (drain_script n) None) in
@@ -166,25 +166,22 @@ Theorem split_handoff_order_irrelevant : forall l l', Permutation l l' -> combin
 Proof. exact combine_perm. Qed.
 Print Assumptions split_handoff_order_irrelevant.
 
-(* ---- block_on_overflow (finding C01-RECOVERY-BLOCKS) ----
-   With blockOnOverflow the first sentence is FALSE of the faithful model: start-up recovery re-puts the requests that
-   were in flight through putInternal, which then waits on hasMoreSpace — while no consumer is running yet.  Witness:
-   capacity 2, request 1 in flight, the queue refilled with 2 and 3, restart: Start parks for ever in every later
-   incarnation, and the accepted request 2 is never handed off whatever number of restarts follows. *)
-Theorem pq_at_least_once_blocking_refuted :
-  exists c h r, blockOnOverflow c = true /\ fits c /\
-    In r (accepted (snd (run_history c store0 h))) /\
-    forall n k, ~ In r (handoffs (snd (run_history c store0 (h ++ drains n k)))).
-Proof. exact at_least_once_blocking_refuted_l. Qed.
-Print Assumptions pq_at_least_once_blocking_refuted.
+(* ---- block_on_overflow (repaired finding C01-RECOVERY-BLOCKS) ----
+   Start-up recovery always completes when the process does not die: it never waits for queue space, whatever the
+   configuration (a request that does not fit back is refused, kept stored and listed). *)
+Theorem pq_recovery_never_parks : forall c st,
+  wf_store st -> exists st1 v errc, run_act None st (initClient c) = (st1, None, Some (v, errc)).
+Proof. exact recovery_never_parks_l. Qed.
+Print Assumptions pq_recovery_never_parks.
 
-(* a parked Start performs no storage call and logs nothing: the store is unchanged (durability is untouched;
-   pq_durable_or_final holds for EVERY configuration, blocking or not) *)
-Theorem pq_parked_start_changes_nothing : forall c st sc,
-  run_act None st (initClient c) = (st, None, None) ->
-  i_store (incarnation c st sc None) = st /\ i_events (incarnation c st sc None) = [].
-Proof. exact parked_changes_nothing. Qed.
-Print Assumptions pq_parked_start_changes_nothing.
+(* documentation: on the witness of the old finding the recovery as it was before the repair (reenqueue_old: the re-put
+   waits with block_on_overflow) parks, the current one completes with one refused re-put that stays listed *)
+Theorem pq_old_recovery_parked_now_completes :
+  let st := fst (run_history cfg_block store0 h_block) in
+  run_act None st (initClient_old cfg_block) = (st, None, None) /\
+  (exists st1 v, run_act None st (initClient cfg_block) = (st1, None, Some (v, 1%nat)) /\ cdi v = [1%N]).
+Proof. exact old_recovery_parked_now_completes_l. Qed.
+Print Assumptions pq_old_recovery_parked_now_completes.
 
 (* ---- translator obligations (T1 re-reads the Go source on every run; see C01/Translated.v) ---- *)
 Theorem t1_bytesToItemIndex_matches_go : forall buf,
